@@ -204,6 +204,38 @@ class System(Facet):
         return run_system(desc)
 
 
+@st.composite
+def sequence_cases(draw):
+    first = draw(system_cases())
+    import copy
+
+    second = copy.deepcopy(first)
+    for d in second["universe"]["dims"]:
+        k = draw(st.integers(0, 3))
+        if k == 1 and len(d["items"]) > 1:
+            d["items"] = list(reversed(d["items"]))
+        elif k == 2:
+            d["items"] = [(f"other {i}" if isinstance(it, str) else it + 7) for i, it in enumerate(d["items"])]
+    return {"first": first, "second": second}
+
+
+class Sequence(Facet):
+    """Two systems with the same dimension letters and shapes but other items (or the same items in
+    another order), exported one after the other in the same process - as in a scenario loop."""
+
+    name = "sequence"
+    examples = {"quick": 300, "thorough": 4000}
+    shards = {"quick": 16, "thorough": 16}
+
+    def strategy(self, tier):
+        return sequence_cases()
+
+    def run(self, desc):
+        a = run_system(desc["first"])
+        b = run_system(desc["second"])
+        return {"nontrivial": True, "classes": ["two-systems"] + [c for c in b["classes"] if c.startswith("flows")]}
+
+
 def run_definition(desc):
     definition = c18.make_definition(desc)
     dump = definition.model_dump()
@@ -248,7 +280,8 @@ Prop(
     "process list, endpoints, stock processes); pandas form and CSV files re-imported with from_df into identical arrays (CSV text read "
     "back with the round-trip float parser, so exact); pickle equals the numpy dict; file counts = #flows resp. #stocks x (1|3) with files matched to "
     "arrays by content; system snapshot unchanged. definition: to_dfs has one table per non-empty kind, one row per definition, cells "
-    "= model_dump(). Non-trivial = flows of different dimensionality or names needing sanitising.",
-    [System(), Definition()],
+    "= model_dump(). sequence: two systems with the same letters and shapes but permuted or different items exported one after the "
+    "other in one process (scenario loop), each checked as above. Non-trivial = flows of different dimensionality or names needing sanitising.",
+    [System(), Sequence(), Definition()],
     assumptions=["names stay distinct after removing everything but [a-z0-9] (implies distinct sanitised file names)", "flows have >= 1 dimension"],
 )
